@@ -586,6 +586,22 @@ def gen_crps_decomp(rng, tier):
     return out
 
 
+def gen_crps_uncert(rng, tier):
+    """weighted (distinct dyadic weights) and unweighted forecasts, constant ensembles and single members included"""
+    out = []
+    vals = [0.0, 1.0, 2.0, 3.0, 0.5, -1.5]
+    wts = [0.5, 0.25, 0.125, 0.0625, 0.03125]
+    for n in (1, 2, 3, 5):
+        for m in (1, 2, 3):
+            for _ in range(5):
+                sim = []
+                for _i in range(n):
+                    sim += [rng.choice(vals)] * m if rng.random() < 0.3 else [rng.choice(vals) for _ in range(m)]
+                w = wts[:n]; rng.shuffle(w)
+                out.append([n, m, rng.choice([0, 1]), rng.choice([0, 0, 1]), [rng.choice(vals) for _ in range(n)], sim, w, [7.0] * ((m + 1) * 7), [0.0] * 5])
+    return out
+
+
 def gen_ensrank(rng, tier):
     out = []
     vals = [0.0, 1.0, 2.0, 3.0]
@@ -678,6 +694,7 @@ def kernels(*names):
     tab['c_voronoi#nearest'] = (GRID, 'c_voronoi#nearest', gen_voronoi_nearest)
     tab['c_delineate_area#reach'] = (CATCH, 'c_delineate_area#reach', gen_area_reach)
     tab['c_delineate_area#once'] = (CATCH, 'c_delineate_area#once', gen_area_once)
+    tab['c_crps#uncertainty'] = (CRPS, 'c_crps#uncertainty', gen_crps_uncert)
     tab['c_var2h#average'] = (VAR2H, 'c_var2h#average', [g for r_, f_, g in ALL_KERNELS if f_ == 'c_var2h'][0])
     return [tab[n] for n in names]
 
